@@ -24,6 +24,23 @@ func init() {
 		},
 	})
 	register(&Property{
+		ID: "C28",
+		Explanation: "Decides the totality clause only ('no pattern or path causes a panic', errors are reported), not the glob semantics: (pattern-totality) every call of preparePattern, which reads patternStr[0], lies behind a non-empty test of that string (Match, ChildMatch, ParsePatterns); in both CollectPatterns functions each matcher constructor is reached only after ValidatePatterns succeeded on the same list, and patterns read from files are validated before they are merged into the option lists; the case-insensitive constructors build their matcher from strings.ToLower of every pattern and apply ToLower to the item; list ends with the error of match / childMatch / prepareStr, match with the error of filepath.Match, and prepareStr splits only non-empty paths. Not decided: that `**`, relative patterns, directory coverage and negation behave as documented, that childMatch is never false when a descendant matches, and the index arithmetic inside match (expansion of `**`).",
+		Assumptions: commonAssumptions,
+		Technique:   "static analysis: call-site enumeration with dominating-guard cuts + path-sensitive error propagation (go/ssa)",
+		Run:         func(c *eng.Ctx) { rulePatternTotality(c) },
+		Controls: []Control{
+			{Name: "parsepatterns-keeps-empty-pattern", File: "internal/filter/filter.go",
+				Old: "		if pat == \"\" {\n			continue\n		}\n\n		pats := preparePattern(pat)", New: "		pats := preparePattern(pat)", Rule: "pattern-totality"},
+			{Name: "exclude-patterns-not-validated", File: "internal/filter/exclude.go",
+				Old: "		if err := ValidatePatterns(opts.Excludes); err != nil {\n			return nil, errors.Fatalf(\"--exclude: %s\", err)\n		}\n", New: "", Rule: "pattern-totality"},
+			{Name: "iexclude-item-not-lowered", File: "internal/filter/exclude.go",
+				Old: "		return rejFunc(strings.ToLower(item))", New: "		return rejFunc(item)", Rule: "pattern-totality"},
+			{Name: "list-swallows-match-error", File: "internal/filter/filter.go",
+				Old: "		m, err := match(pat, strs)\n		if err != nil {\n			return false, false, err\n		}", New: "		m, err := match(pat, strs)\n		if err != nil {\n			m = false\n		}", Rule: "pattern-totality"},
+		},
+	})
+	register(&Property{
 		ID: "C27",
 		Explanation: "Decides the identity clause and the shape of the tree rewrite, not which paths a pattern matches (C28): (filter-identity) the node filters built by gatherExcludeFilters and gatherIncludeFilters return their node argument itself or nil, and no literal of these builders stores to a field of data.Node (kept entries keep metadata and data); for --exclude the selection helper returns false exactly on the edge where a reject function returned true for the node's path and the filter keeps the node exactly when the helper, asked about that path, returns true; (rewrite-tree) TreeRewriter.RewriteTree gives the filter item.Node and path.Join(nodepath, node.Name), adds exactly the node the filter returned, moves past a kept node only through AddNode or the edge where the rewritten subtree ID is null, sets a directory's Subtree to the recursive result, starts rewriting only after the tree re-encoded to the same ID (or AllowUnstableSerialization), and memoises old→new IDs only after Finalize succeeded; (rewrite-unchanged) in filterAndReplaceSnapshot, with an identical filtered tree, no metadata change and no recomputed summary, SaveSnapshot is unreachable. Not decided: the include filter's directory handling ('directories leading to matches'), pattern semantics, and summary statistics.",
 		Assumptions: commonAssumptions,
